@@ -106,6 +106,11 @@ func VC08Script(bp, k, ints int) {
 	if ints == 1 {
 		d1.cpu, d2.cpu = c1, c2
 		d1.shapes, d2.shapes = 3, 3
+		// a request may already be pending when Run is entered (with a stale HALT flag)
+		if vCase(vBool("nmi-at-entry")) {
+			c1.Interrupt = NMIInterrupt()
+			c2.Interrupt = NMIInterrupt()
+		}
 	}
 	if bp == 1 {
 		c1.BreakPoints = vMapU16Set("bp", 2)
@@ -237,6 +242,13 @@ func VC08Prog(k int) {
 		vPut(bus1, 0x0038, 0x00, 0x76)
 		bps = map[uint16]struct{}{0x0038: {}}
 		dev = 2
+	case 14: // Run ends on HALT, an NMI is raised, Run again: the handler runs to its own HALT
+		s.PC = 0x4000
+		s.SP = 0x8000
+		vPut(bus1, 0x4000, 0x76)
+		vPut(bus1, 0x0066, 0x00, 0x76)
+		again = true
+		dev = 3
 	default: // conditional loop: DJNZ with B = 2, then HALT; breakpoint after the loop
 		s.PC = 0x4000
 		s.BC.Hi = 2
@@ -246,7 +258,7 @@ func VC08Prog(k int) {
 	bus2 := bus1.Fork("bus2")
 	c1 := &CPU{States: s, Memory: bus1, IO: bus1, HALT: stale, BreakPoints: bps}
 	c2 := &CPU{States: s, Memory: bus2, IO: bus2, HALT: stale, BreakPoints: bps}
-	if dev != 0 {
+	if dev == 1 || dev == 2 {
 		c1.IO = &vIntDev{cpu: c1, bus: bus1, kind: dev}
 		c2.IO = &vIntDev{cpu: c2, bus: bus2, kind: dev}
 	}
@@ -289,7 +301,15 @@ func VC08Prog(k int) {
 	case 13:
 		vAssert("end", vAnd(vErrKind(err) == 1, vAnd(!c1.HALT, vAnd(c1.PC == 0x0038, c1.SP == 0x7ffe))))
 	}
-	if again {
+	if again && dev == 3 {
+		c1.Interrupt = NMIInterrupt()
+		c2.Interrupt = NMIInterrupt()
+		err2 := c1.Run(context.Background())
+		wk2, _ := vTwinRun(c2, max)
+		vAssert("again-nmi-result", vErrKind(err2) == wk2)
+		vAssert("again-nmi-state", c1.States == c2.States)
+		vAssert("again-nmi-end", vAnd(vErrKind(err2) == 0, vAnd(c1.HALT, vAnd(c1.PC == 0x0067, c1.SP == 0x7ffe))))
+	} else if again {
 		// Run again on the halted CPU: halts again at the same address, registers
 		// and memory unchanged (the low seven bits of R advance with the fetch)
 		before := c1.States
